@@ -676,6 +676,10 @@ def rule_none_extent(ctx, rid):
                     walk(it, guards, binders)
                 walk(t[2], guards, b2)
                 return
+            if t[0] == 'sub' and t[2] == NONE and t[1][0] in ('s', 'bv') and bad is None:
+                nsub += 1
+                bad = 'the values are indexed with a value known to be None on this path: x[None] is the whole ' \
+                      'recording with a new axis, so the function sees every sample'
             if t[0] == 'sub' and maybe_none(t[2], binders):
                 nsub += 1
                 ok = any((g[0] == 'cmp' and g[2] == t[2] and g[3] == NONE and
